@@ -144,46 +144,104 @@ theorem After.of_core {text : List UInt8} {δ : Int} {o : Nat} {s s' : S} (h : A
   obtain ⟨h1, h2, h3, h4, h5⟩ := hc
   exact ⟨hi, by rw [h4]; exact h.sk, by have := h.lt; simpa [off, h1, h4, h5] using this⟩
 
-/-- what the invariant says about the unread bytes when only line splices are left -/
-theorem Inv.raw_nil {text : List UInt8} {δ : Int} {s : S} (h : Inv text δ s) (ht : s.inp.tail = []) :
-    s.pos + 2 * s.trail = text.length ∧
-    physAt text text.length = advSplice (physAt text s.pos) s.trail := by
-  have hraw := h.raw
-  rw [ht] at hraw
+/-- the unread bytes when only line splices are left -/
+theorem raw_nil' {text : List UInt8} {pos tr : Nat} (hraw : group (text.drop pos) 0 = ([], tr))
+    (hle : pos ≤ text.length) :
+    pos + 2 * tr = text.length ∧ physAt text text.length = advSplice (physAt text pos) tr := by
   obtain ⟨_, hsp⟩ := group_nil_inv _ _ _ hraw
   simp only [Nat.sub_zero] at hsp
-  have hlen : s.pos + 2 * s.trail = text.length := by
+  have hlen : pos + 2 * tr = text.length := by
     have := congrArg List.length hsp
     simp at this
-    have := h.pos_le
     omega
   refine ⟨hlen, ?_⟩
-  have := physAt_add text s.pos (splices s.trail) [] (by simpa using hsp)
+  have := physAt_add text pos (splices tr) [] (by simpa using hsp)
   rw [length_splices, hlen, advBytes_splices] at this
   exact this
 
 /-- … and when a character `c` preceded by `k` line splices comes next -/
+theorem raw_cons' {text : List UInt8} {pos tr k : Nat} {c : UInt8} {r : List (Nat × UInt8)}
+    (hraw : group (text.drop pos) 0 = ((k, c) :: r, tr)) :
+    text[pos + 2 * k]? = some c ∧ pos + 2 * k + 1 ≤ text.length ∧
+    group (text.drop (pos + 2 * k + 1)) 0 = (r, tr) ∧
+    group (text.drop (pos + 2 * k)) 0 = ((0, c) :: r, tr) ∧
+    physAt text (pos + 2 * k) = advSplice (physAt text pos) k := by
+  obtain ⟨_, t', hsp, hg, hg2⟩ := group_cons_inv _ _ _ _ _ _ hraw
+  simp only [Nat.sub_zero] at hsp
+  obtain ⟨d1, d2, d3⟩ := drop_structure text pos (splices k) c t' hsp
+  rw [length_splices] at d1 d2 d3
+  refine ⟨d1, d3, by rw [d2]; exact hg, ?_, ?_⟩
+  · have : text.drop (pos + 2 * k) = c :: t' := by
+      rw [← List.drop_drop, hsp]
+      have := List.drop_left' (l₁ := splices k) (l₂ := c :: t') (length_splices k)
+      exact this
+    rw [this]; exact hg2
+  · have := physAt_add text pos (splices k) (c :: t') hsp
+    rw [length_splices, advBytes_splices] at this
+    exact this
+
+theorem Inv.raw_nil {text : List UInt8} {δ : Int} {s : S} (h : Inv text δ s) (ht : s.inp.tail = []) :
+    s.pos + 2 * s.trail = text.length ∧
+    physAt text text.length = advSplice (physAt text s.pos) s.trail :=
+  raw_nil' (by have := h.raw; rw [ht] at this; exact this) h.pos_le
+
 theorem Inv.raw_cons {text : List UInt8} {δ : Int} {s : S} (h : Inv text δ s) {k : Nat} {c : UInt8}
     {r : List (Nat × UInt8)} (ht : s.inp.tail = (k, c) :: r) :
     text[s.pos + 2 * k]? = some c ∧ s.pos + 2 * k + 1 ≤ text.length ∧
     group (text.drop (s.pos + 2 * k + 1)) 0 = (r, s.trail) ∧
     group (text.drop (s.pos + 2 * k)) 0 = ((0, c) :: r, s.trail) ∧
-    physAt text (s.pos + 2 * k) = advSplice (physAt text s.pos) k := by
-  have hraw := h.raw
-  rw [ht] at hraw
-  obtain ⟨_, t', hsp, hg, hg2⟩ := group_cons_inv _ _ _ _ _ _ hraw
-  simp only [Nat.sub_zero] at hsp
-  obtain ⟨d1, d2, d3⟩ := drop_structure text s.pos (splices k) c t' hsp
-  rw [length_splices] at d1 d2 d3
-  refine ⟨d1, d3, by rw [d2]; exact hg, ?_, ?_⟩
-  · have : text.drop (s.pos + 2 * k) = c :: t' := by
-      rw [← List.drop_drop, hsp]
-      have := List.drop_left' (l₁ := splices k) (l₂ := c :: t') (length_splices k)
-      exact this
-    rw [this]; exact hg2
-  · have := physAt_add text s.pos (splices k) (c :: t') hsp
-    rw [length_splices, advBytes_splices] at this
-    exact this
+    physAt text (s.pos + 2 * k) = advSplice (physAt text s.pos) k :=
+  raw_cons' (by have := h.raw; rw [ht] at this; exact this)
+
+/-- a state that has just read EOF, described by its fields -/
+theorem inv_fields_nil {text : List UInt8} {δ : Int} {pos tr : Nat} {l0 : Loc} (s' : S)
+    (hraw : group (text.drop pos) 0 = ([], tr)) (hle : pos ≤ text.length)
+    (hl0 : LocRel δ l0 (physAt text pos))
+    (a1 : s'.inp = []) (a2 : s'.trail = 0) (a3 : s'.skipped = 0) (a4 : s'.pos = pos + 2 * tr)
+    (a5 : s'.loc = ⟨(advSplice l0 tr).line, (advSplice l0 tr).col + 1⟩) :
+    Inv text δ s' ∧ off s' = text.length := by
+  obtain ⟨hlen, hphys⟩ := raw_nil' hraw hle
+  have hoff' : off s' = text.length := by unfold off; rw [if_pos a1, a4, hlen]
+  have hnone : text[text.length]? = none := List.getElem?_eq_none (Nat.le_refl _)
+  refine ⟨⟨?_, ?_, ?_, ?_, ?_, ?_, ?_, ?_⟩, hoff'⟩
+  · rw [a1, a2, a4, hlen]; simp [group]
+  · rw [a4, hlen]; exact Nat.le_refl _
+  · intro _; exact ⟨by rw [a4, hlen], a3⟩
+  · intro hn; exact absurd a1 hn
+  · intro k c r hr; rw [a1] at hr; cases hr
+  · rw [hoff', a5, locAt, hnone]
+    have := (hl0.advSplice tr)
+    rw [← hphys] at this
+    exact ⟨this.1, by simp only; rw [this.2]⟩
+  · intro hn; exact absurd a1 hn
+  · intro hn; exact absurd a3 hn
+
+/-- a state that has just read the character `c` behind `k` line splices, described by its fields -/
+theorem inv_fields_cons {text : List UInt8} {δ : Int} {pos tr k : Nat} {c : UInt8}
+    {r : List (Nat × UInt8)} {l0 : Loc} (s' : S)
+    (hraw : group (text.drop pos) 0 = ((k, c) :: r, tr))
+    (hl0 : LocRel δ l0 (physAt text pos))
+    (a1 : s'.inp = (k, c) :: r) (a2 : s'.trail = tr) (a3 : s'.skipped = 0)
+    (a4 : s'.pos = pos + 2 * k + 1) (a5 : s'.loc = advChar (advSplice l0 k) c) :
+    Inv text δ s' ∧ off s' = pos + 2 * k := by
+  obtain ⟨d1, d3, hg, _, hphys⟩ := raw_cons' hraw
+  have hoff' : off s' = pos + 2 * k := by
+    unfold off; rw [if_neg (by rw [a1]; simp), a3, a4]; omega
+  have hloc : LocRel δ s'.loc (physAt text (pos + 2 * k + 1)) := by
+    rw [a5, physAt_succ text _ c d1, hphys]
+    exact (hl0.advSplice k).advChar c
+  refine ⟨⟨?_, ?_, ?_, ?_, ?_, ?_, ?_, ?_⟩, hoff'⟩
+  · rw [a1, a2, a4]; exact hg
+  · rw [a4]; exact d3
+  · intro hn; rw [a1] at hn; cases hn
+  · intro _; rw [a3, a4]; omega
+  · intro k' c' r' hr
+    rw [a1] at hr
+    simp only [List.cons.injEq, Prod.mk.injEq] at hr
+    rw [hoff', ← hr.1.2]; exact d1
+  · rw [hoff', locAt_some text _ c d1]; exact hloc
+  · intro _; rw [a3, a4]; simpa [advSplice] using hloc
+  · intro hn; exact absurd a3 hn
 
 /-- **`nextchar` keeps the invariant** (when there is a current character to move past) -/
 theorem nextchar_after {text : List UInt8} {δ : Int} {s : S} (h : Inv text δ s) (hne : s.inp ≠ []) :
@@ -191,47 +249,42 @@ theorem nextchar_after {text : List UInt8} {δ : Int} {s : S} (h : Inv text δ s
   have hah := h.ahead hne
   have hcur := h.cur hne
   have hoff : off s = s.pos - 1 - 2 * s.skipped := by simp [off, hne]
+  have hraw := h.raw
   cases ht : s.inp.tail with
   | nil =>
+    rw [ht] at hraw
     obtain ⟨a1, a2, a3, a4, a5⟩ := nextchar_nil s ht
-    obtain ⟨hlen, hphys⟩ := h.raw_nil ht
-    have hoff' : off s.nextchar = text.length := by unfold off; rw [if_pos a1, a4, hlen]
-    have hnone : text[text.length]? = none := List.getElem?_eq_none (Nat.le_refl _)
-    refine ⟨⟨?_, ?_, ?_, ?_, ?_, ?_, ?_, ?_⟩, a3, ?_⟩
-    · rw [a1, a2, a4, hlen]; simp [group]
-    · rw [a4, hlen]; exact Nat.le_refl _
-    · intro _; exact ⟨by rw [a4, hlen], a3⟩
-    · intro hn; exact absurd a1 hn
-    · intro k c r hr; rw [a1] at hr; cases hr
-    · rw [hoff', a5, locAt, hnone]
-      have := (hah.advSplice s.trail)
-      rw [← hphys] at this
-      exact ⟨this.1, by simp only; rw [this.2]⟩
-    · intro hn; exact absurd a1 hn
-    · intro hn; exact absurd a3 hn
-    · rw [hoff', hoff]; omega
+    obtain ⟨hi, ho⟩ := inv_fields_nil s.nextchar hraw h.pos_le hah a1 a2 a3 a4 a5
+    have := hi.pos_le
+    exact ⟨hi, a3, by rw [ho, hoff]; rw [a4] at this; omega⟩
   | cons e r =>
     obtain ⟨k, c⟩ := e
+    rw [ht] at hraw
     obtain ⟨a1, a2, a3, a4, a5⟩ := nextchar_cons s k c r ht
-    obtain ⟨d1, d3, hg, _, hphys⟩ := h.raw_cons ht
-    have hoff' : off s.nextchar = s.pos + 2 * k := by
-      unfold off; rw [if_neg (by rw [a1]; simp), a3, a4]; omega
-    have hloc : LocRel δ s.nextchar.loc (physAt text (s.pos + 2 * k + 1)) := by
-      rw [a5, physAt_succ text _ c d1, hphys]
-      exact (hah.advSplice k).advChar c
-    refine ⟨⟨?_, ?_, ?_, ?_, ?_, ?_, ?_, ?_⟩, a3, ?_⟩
-    · rw [a1, a2, a4]; exact hg
-    · rw [a4]; exact d3
-    · intro hn; rw [a1] at hn; cases hn
-    · intro _; rw [a3, a4]; omega
-    · intro k' c' r' hr
-      rw [a1] at hr
-      simp only [List.cons.injEq, Prod.mk.injEq] at hr
-      rw [hoff', ← hr.1.2]; exact d1
-    · rw [hoff', locAt_some text _ c d1]; exact hloc
-    · intro _; rw [a3, a4]; simpa [advSplice] using hloc
-    · intro hn; exact absurd a3 hn
-    · rw [hoff', hoff]; omega
+    obtain ⟨hi, ho⟩ := inv_fields_cons s.nextchar hraw hah a1 a2 a3 a4 a5
+    exact ⟨hi, a3, by rw [ho, hoff]; omega⟩
+
+/-- `scanfrom`: the initial state is correct, with no line shift -/
+theorem init_inv (text : List UInt8) : Inv text 0 (S.init text) ∧ (S.init text).skipped = 0 := by
+  have hl0 : LocRel 0 ⟨1, 0⟩ (physAt text 0) := by simp [LocRel, physAt, advBytes]
+  cases hg : group text 0 with
+  | mk g tr =>
+    cases g with
+    | nil =>
+      have hraw : group (text.drop 0) 0 = ([], tr) := by simpa using hg
+      have hi := inv_fields_nil (δ := 0) (l0 := ⟨1, 0⟩) (S.init text) hraw (Nat.zero_le _) hl0
+        (by simp [S.init, hg]) (by simp [S.init, S.readHead, hg])
+        (by simp [S.init, S.readHead, hg]) (by simp [S.init, S.readHead, hg])
+        (by simp [S.init, S.readHead, hg, advSplice])
+      exact ⟨hi.1, by simp [S.init, S.readHead, hg]⟩
+    | cons e r =>
+      obtain ⟨k, c⟩ := e
+      have hraw : group (text.drop 0) 0 = ((k, c) :: r, tr) := by simpa using hg
+      have hi := inv_fields_cons (δ := 0) (l0 := ⟨1, 0⟩) (S.init text) hraw hl0
+        (by simp [S.init, hg]) (by simp [S.init, S.readHead, hg])
+        (by simp [S.init, S.readHead, hg]) (by simp [S.init, S.readHead, hg])
+        (by simp [S.init, S.readHead, hg, advSplice])
+      exact ⟨hi.1, by simp [S.init, S.readHead, hg]⟩
 
 theorem nextchar_after' {text : List UInt8} {δ : Int} {s : S} (h : Inv text δ s) (hne : s.inp ≠ [])
     (s1 : S) (hc : core s1 = core s) : After text δ (off s) s1.nextchar :=
